@@ -567,3 +567,131 @@ func SynthGSUBLongContexts(gid int, lookaheads []int) []byte {
 	}
 	return layoutTable("ccmp", lookups)
 }
+
+// GvarPointBlock locates one packed point-number block of a 'gvar' table (the shared point
+// numbers of a glyph, or the private ones of its first tuple).
+type GvarPointBlock struct {
+	GID int
+	Off int // file offset of the block
+	Len int // its length in bytes
+}
+
+// packedPointsLen returns the length of a packed point-number block starting at b[0].
+func packedPointsLen(b []byte) (int, bool) {
+	if len(b) == 0 {
+		return 0, false
+	}
+	if b[0] == 0 {
+		return 1, true
+	}
+	pos, count := 1, int(b[0])
+	if b[0]&0x80 != 0 {
+		if len(b) < 2 {
+			return 0, false
+		}
+		count, pos = int(b[0]&0x7F)<<8|int(b[1]), 2
+	}
+	for got := 0; got < count; {
+		if pos >= len(b) {
+			return 0, false
+		}
+		c := b[pos]
+		pos++
+		n := int(c&0x7F) + 1
+		if c&0x80 != 0 {
+			pos += 2 * n
+		} else {
+			pos += n
+		}
+		got += n
+	}
+	if pos > len(b) {
+		return 0, false
+	}
+	return pos, true
+}
+
+// GvarPointBlocks lists the point-number blocks of at least minLen bytes.
+func GvarPointBlocks(img []byte, minLen int) (out []GvarPointBlock) {
+	kind, tabs := ParseDirectory(img)
+	if kind != KindSfnt {
+		return nil
+	}
+	for _, t := range tabs {
+		if t.Tag != "gvar" || t.Length < 20 || t.Offset+t.Length > len(img) {
+			continue
+		}
+		g := img[t.Offset : t.Offset+t.Length]
+		axes := int(binary.BigEndian.Uint16(g[4:]))
+		n := int(binary.BigEndian.Uint16(g[12:]))
+		long := binary.BigEndian.Uint16(g[14:])&1 != 0
+		arr := int(binary.BigEndian.Uint32(g[16:]))
+		at := func(i int) int {
+			if long {
+				if 20+4*i+4 > len(g) {
+					return -1
+				}
+				return int(binary.BigEndian.Uint32(g[20+4*i:]))
+			}
+			if 20+2*i+2 > len(g) {
+				return -1
+			}
+			return 2 * int(binary.BigEndian.Uint16(g[20+2*i:]))
+		}
+		for gid := 0; gid < n; gid++ {
+			a, b := at(gid), at(gid+1)
+			if a < 0 || b <= a+4 || arr+b > len(g) {
+				continue
+			}
+			d := g[arr+a : arr+b]
+			tc := int(binary.BigEndian.Uint16(d))
+			dataOff := int(binary.BigEndian.Uint16(d[2:]))
+			if tc&0x0FFF == 0 || dataOff >= len(d) {
+				continue
+			}
+			ser := d[dataOff:]
+			if tc&0x8000 != 0 { // shared point numbers
+				if l, ok := packedPointsLen(ser); ok && l >= minLen {
+					out = append(out, GvarPointBlock{gid, t.Offset + arr + a + dataOff, l})
+				}
+				continue
+			}
+			// private points of the first tuple
+			if 8 > len(d) {
+				continue
+			}
+			if ti := binary.BigEndian.Uint16(d[6:]); ti&0x2000 != 0 {
+				_ = axes
+				if l, ok := packedPointsLen(ser); ok && l >= minLen {
+					out = append(out, GvarPointBlock{gid, t.Offset + arr + a + dataOff, l})
+				}
+			}
+		}
+	}
+	return out
+}
+
+// AdversarialPoints encodes, in exactly n bytes (n >= 4), a packed point-number block whose
+// running sum leaves the glyph and, for even n, wraps around 16 bits back to a small value.
+func AdversarialPoints(n int, variant int) []byte {
+	out := make([]byte, 0, n)
+	if n%2 == 0 {
+		k := (n - 2) / 2
+		out = append(out, byte(k), 0x80|byte(k-1))
+		vals := [][]uint16{{1, 0xFFF0, 0x10}, {0xFFFF, 2, 0}, {5, 0x7FFF, 0x8001}, {0, 0xFFFF, 0xFFFF}}[variant%4]
+		for i := 0; i < k; i++ {
+			v := uint16(0)
+			if i < len(vals) {
+				v = vals[i]
+			}
+			out = append(out, byte(v>>8), byte(v))
+		}
+		return out
+	}
+	k := n - 2
+	out = append(out, byte(k), byte(k-1))
+	for i := 0; i < k; i++ {
+		out = append(out, []byte{0xFF, 0x01, 0x80, 0x00}[(i+variant)%4])
+	}
+	return out
+}
